@@ -296,6 +296,31 @@ def _contains_after_head(n):
     return run
 
 
+@harness('c05.contains_after_head', ['C05', 'C08', 'C09', 'C01', 'C10'], functions=[QP + '.contains_after_head'],
+         assumptions=['Python semantics of list(deque)[1:] and any(generator expression) as modelled: the slice drops exactly the first '
+                      'element (none if empty), any() is the existential over the elements; the element test is evaluated on a generic '
+                      'element and must not branch on it'])
+def contains_after_head_unbounded(E):
+    """For EVERY queue content (any length): true iff some item strictly behind the head satisfies the predicate; the queue is
+    not changed.  (The bounded instances below stay as a cross-check that does not depend on the quantified model.)"""
+    E.import_module('asyncio')
+    q = aio.new_symbolic_queue(E, E.lookup(QP), 'sendq')
+    E.queue_item_hook = lambda E_, term, label: SOpaque('qitem', label, attrs={'_id': term, 'stream_id': mk_int(STREAM(term))})
+    s = q.attrs['_sym']
+    sid = E.fresh_int('sid')
+    pred = Builtin('predicate', lambda item: mk_bool(I(item.attrs['stream_id']) == I(sid)))
+    r = E.call(E.getattr(q, 'contains_after_head'), [pred])
+    E.cover('checked')
+    res = B(E.truth(r))
+    w = z3.Int(E.path.fresh_name('witness'))
+    j = z3.Int('cah.j')
+    E.prove('contains_after_head:true_if_some_item_behind_the_head_matches[any position, any length]',
+            z3.Implies(z3.And(w > s['h0'], w < s['t0'], STREAM(z3.Select(s['arr0'], w)) == I(sid)), res))
+    E.prove('contains_after_head:false_if_no_item_behind_the_head_matches[the head itself does not count]',
+            z3.Implies(z3.ForAll([j], z3.Implies(z3.And(j > s['h0'], j < s['t0']), STREAM(z3.Select(s['arr0'], j)) != I(sid))), z3.Not(res)))
+    E.prove('contains_after_head:queue_unchanged', z3.And(s['h'] == s['h0'], s['t'] == s['t0'], s['arr'].eq(s['arr0'])))
+
+
 for _n in range(0, 5):
     harness('c05.contains_after_head[queue_length=%d]' % _n, ['C05', 'C08', 'C09', 'C01'], kind='bounded',
             functions=[QP + '.contains_after_head', BASE + '._is_stream_queued_behind_head'],
